@@ -125,6 +125,19 @@ class Spec(object):
 
     def families(self, tier):
         out = universal.family(tier)
+        # every focused family of the other properties is also a normal-termination test (complete trees)
+        import importlib
+        seen = set()
+        for other in ("c01", "c02", "c03", "c04", "c05", "c06", "c07", "c08", "c09", "c11", "c12", "c13", "c19"):
+            try:
+                m = importlib.import_module("ciwmc.props." + other)
+            except ImportError:
+                continue
+            for c in m.focused(tier):
+                if c["name"] in seen or c.get("entry", ["max_time"])[0] != "max_time":
+                    continue
+                seen.add(c["name"])
+                out.append(c)
         singles = [c for c in universal.family("quick") if len(c["features"]) <= (1 if tier == "quick" else 2)]
         import copy
         for T in (4.25, 15.0):
